@@ -192,7 +192,7 @@ def register(M, h):
         if isinstance(src, Vec):
             if src.dtype == 'M8':
                 return [El(e.d, False) if not m_conc(e.m, node, 'datetime conversion') else El(X.NAN, False) for e in src.els()], src.tz
-            if src.dtype in ('f8', 'i8') and unit is not None:
+            if src.dtype in ('f8', 'i8', 'u1') and unit is not None:
                 k = {'s': Fr(1), 'ms': Fr(1, 1000), 'ns': Fr(1, 10**9), 'm': Fr(60), 'h': Fr(3600), 'D': Fr(86400), 'us': Fr(1, 10**6)}.get(unit)
                 if k is None:
                     raise AnalysisError(f'to_datetime unit {unit!r}', node)
